@@ -39,7 +39,9 @@ pub fn exec(case: &Value) -> Vec<Value> {
     let lines: Vec<String> = case["lines"].as_array().unwrap().iter().map(line_of).collect();
     let mode = get_str(case, "mode").to_string();
     let opt = |k: &str| -> Option<usize> { case.get(k).and_then(|x| x.as_i64()).and_then(|v| if v < 0 { None } else { Some(v as usize) }) };
-    let max_size = opt("max_size");
+    // `huge`: a max_size far beyond any vocabulary (usize::MAX / 32; the record carries the case's 2^31 - 1, TLC integers are
+    // 32-bit): the same dictionary as without a limit
+    let max_size = if get_bool(case, "huge") { Some(usize::MAX / 32) } else { opt("max_size") };
     let max_seq = opt("max_seq");
     let dir = std::env::temp_dir().join(format!("tuverif-dict-{}-{:?}", std::process::id(), std::thread::current().id()));
     let _ = std::fs::create_dir_all(&dir);
@@ -48,7 +50,14 @@ pub fn exec(case: &Value) -> Vec<Value> {
     // the file that is read first has the name that sorts last (the order of the list counts, not the order of the names)
     let f1 = dir.join("z-first.txt");
     let f2 = dir.join("a-second.txt");
-    std::fs::write(&f1, lines[..split].iter().map(|l| format!("{l}\n")).collect::<String>()).unwrap();
+    // the first file ends without a line terminator (its last line is a line all the same, not the start of the next file's first)
+    // (an empty last line only exists with its terminator)
+    let first: String = if lines[..split].last().map(|l| l.is_empty()).unwrap_or(true) {
+        lines[..split].iter().map(|l| format!("{l}\n")).collect()
+    } else {
+        lines[..split].join("\n")
+    };
+    std::fs::write(&f1, first).unwrap();
     std::fs::write(&f2, lines[split..].iter().map(|l| format!("{l}\n")).collect::<String>()).unwrap();
     let mut out = vec![];
     for threads in case["threads"].as_array().map(|a| a.iter().map(|x| x.as_u64().unwrap() as u8).collect::<Vec<_>>()).unwrap_or(vec![0]) {
@@ -122,10 +131,10 @@ pub fn gen(seed: u64, n: usize) -> Vec<Value> {
                 .map(|_| (0..rng.random_range(0..=12)).map(|_| [1u64, 1, 2, 2, 3, 3, 4, 5, 6, 8][rng.random_range(0..10)]).collect())
                 .collect();
             let queries: Vec<Vec<u64>> = (0..3).map(|_| (0..rng.random_range(0..=4)).map(|_| rng.random_range(2..=4u64)).collect()).collect();
-            let ms = [-1i64, 0, 1, 2, 3, 5, 50][rng.random_range(0..7)];
+            let ms = [-1i64, 0, 1, 2, 3, 5, 50, 2147483647][rng.random_range(0..8)];
             let mq = if nl > 8 { [-1i64, 250][rng.random_range(0..2)] } else { [-1i64, -1, 0, 1, 2, 5][rng.random_range(0..6)] };
             let mode = ["word", "char1", "char3"][rng.random_range(0..3)];
-            json!({"lines": lines, "max_size": ms, "max_seq": mq, "mode": mode, "threads": [0, 1, 2, 4], "split": rng.random_range(0..=nl), "queries": queries})
+            json!({"lines": lines, "max_size": ms, "huge": ms == 2147483647, "max_seq": mq, "mode": mode, "threads": [0, 1, 2, 4], "split": rng.random_range(0..=nl), "queries": queries})
         })
         .collect()
 }
